@@ -61,7 +61,7 @@ def shards(tier, seed):
         if tier == "quick":
             k = (seed + i) % len(mine)
             mine = (mine[k:] + mine[:k])[:2]
-            ncases, nmax, ndiff = 70, 700, 1
+            ncases, nmax, ndiff = 140, 700, 1
         else:
             ncases, nmax, ndiff = 300, 4000, 2
         out.append(dict(tier=tier, seed=seed * 1000 + i, idx=i, devs=mine, ncases=ncases, nmax=nmax, ndiff=ndiff))
